@@ -21,3 +21,7 @@ pub assume_specification<'a, T: Copy>[ Option::<&'a T>::copied ](o: Option<&'a T
     ensures r == (match o { Some(x) => Some(*x), None => None::<T> });
 // R26v: the element a consuming `for x in vec` loop moves out at position i
 #[verifier::external_body] pub fn vx_vec_take<T>(v: &Vec<T>, i: usize) -> (r: T) requires i < v@.len() ensures r == v@[i as int] { unimplemented!() }
+// R54: indexing that returns only when the index is in bounds (Rust's `v[i]` panics otherwise; nothing is claimed about a panicking run)
+#[verifier::external_body] pub fn vx_index<T>(v: &Vec<T>, i: usize) -> (r: &T) ensures i < v@.len(), *r == v@[i as int] { &v[i] }
+#[verifier::external_body] pub fn vx_index_s<T>(v: &[T], i: usize) -> (r: &T) ensures i < v@.len(), *r == v@[i as int] { &v[i] }
+#[verifier::external_body] pub fn vx_index_set<T>(v: &mut Vec<T>, i: usize, x: T) ensures i < old(v)@.len(), final(v)@ == old(v)@.update(i as int, x) { v[i] = x; }
